@@ -304,7 +304,11 @@ func c10Augment(d *Defs, idx int, seed uint64, zeroUnionDefaults bool) c10Term {
 			Def{"ZzLegend", srcStruct(
 				fld("placement", srcString(), false, false, jvp(jStr("bottom"))),
 				fld("showLegend", srcBool(), false, false, jvp(jBool(true))),
-				fld("width", srcInt(64, true, nil, nil), false, false, jvp(jInt(120))))})
+				fld("width", srcInt(64, true, nil, nil), false, false, jvp(jInt(120))),
+				// member names that must be quoted in CUE, and a union-typed member
+				fld("content-type", srcString(), false, false, jvp(jStr("text/plain"))),
+				fld("x-retry-count", srcInt(64, true, nil, nil), false, false, nil),
+				fld("value", srcOneOfScalars(srcString(), srcInt(64, true, nil, nil)), false, false, nil))})
 		places := []string{"right", "top", "left", ""}
 		for k := 0; k < 2+r.intn(2); k++ {
 			mv := jStr(members[(k+r.intn(2))%3])
@@ -315,6 +319,16 @@ func c10Augment(d *Defs, idx int, seed uint64, zeroUnionDefaults bool) c10Term {
 			}
 			if r.chance(30) {
 				ov.O = append(ov.O, JKV{"width", jInt(int64(r.intn(500)))})
+			}
+			if r.chance(50) {
+				ov.O = append(ov.O, JKV{"content-type", jStr([]string{"application/json", "", "a b"}[r.intn(3)])})
+			}
+			if r.chance(40) {
+				ov.O = append(ov.O, JKV{"x-retry-count", jInt(int64(r.intn(7)))})
+			}
+			if r.chance(60) {
+				vals := []JV{jStr("auto"), jStr("9007199254740993"), jInt(42), jInt(0), jInt(9007199254740993), jInt(-9007199254740993), jNumText("1234567890123456789")}
+				ov.O = append(ov.O, JKV{"value", vals[r.intn(len(vals))]})
 			}
 			root.Fields = append(root.Fields, Field{Name: fmt.Sprintf("zzLegend%d", k), Ty: srcRef("ZzLegend"), Required: r.chance(50), Default: &ov})
 		}
@@ -457,6 +471,8 @@ var c10Pinned = []c10Term{
 	{ID: "scalars", Degrade: 1, Src: `(defs "Root" ("Root" (struct (field "b" (bool) false false true) (field "bf" (bool) true false false) (field "i" (int 64 true - -) false false (n "-3")) (field "z" (int 64 true - -) false false (n "0")) (field "ir" (int 32 true - -) true false (n "7")) (field "f" (num 64 - -) false false (n "2.5")) (field "fi" (num 64 - -) true false (n "3")) (field "fl" (num 64 - -) false false (n "1000000")) (field "s" (string - - false) false false (s "hey")) (field "zs" (string - - false) false false (s "")) (field "sq" (string - - false) true false (s "a\"b\\c")) (field "c" (const (s "fixed")) true false -) (field "ci" (const (n "-47")) false false -))))`},
 	{ID: "const-int", Degrade: 1, Src: `(defs "Root" ("Root" (struct (field "cr" (const (n "75")) true false -) (field "co" (const (n "-47")) false false -) (field "cs" (const (s "fixed")) true false -))))`},
 	{ID: "const-punctuation", Degrade: 1, Pattern: true, Src: `(defs "Root" ("Root" (struct (field "u" (const (s "°C")) true false -) (field "j" (const (s "job=api")) true false -) (field "p" (const (s "a,b@c#d%e!")) false false -) (field "w" (const (s "données")) true false -) (field "sp" (const (s "hello world")) true false -) (field "m" (const (s "math")) true false -))))`},
+	{ID: "struct-ref-quoted-member-names", Degrade: 1, Src: `(defs "Root" ("Root" (struct (field "h" (ref "Headers") false false (o ("content-type" (s "application/json")) ("x-retry-count" (n "3")))) (field "h2" (ref "Headers") true false (o ("x-retry-count" (n "0")) ("plain" true))))) ("Headers" (struct (field "content-type" (string - - false) false false (s "text/plain")) (field "x-retry-count" (int 64 true - -) false false -) (field "plain" (bool) false false -))))`},
+	{ID: "struct-ref-union-member-bigint", Degrade: 1, Src: `(defs "Root" ("Root" (struct (field "big" (ref "S") false false (o ("value" (n "9007199254740993")))) (field "neg" (ref "S") true false (o ("value" (n "-9223372036854775807")))) (field "small" (ref "S") false false (o ("value" (n "42")))) (field "txt" (ref "S") false false (o ("value" (s "9007199254740993")))))) ("S" (struct (field "value" (oneOfScalars (string - - false) (int 64 true - -)) true false -) (field "p" (bool) false false -))))`},
 	{ID: "samekind-union-zero-default", Degrade: 1, Formats: []string{"cue"}, Src: `(defs "Root" ("Root" (struct (field "tz" (oneOfScalars (const (s "utc")) (string - - false)) false false (s "")) (field "n" (oneOfScalars (const (n "7")) (int 64 true - -)) false false (n "0")))))`},
 	{ID: "samekind-union-default", Degrade: 1, Formats: []string{"cue"}, Src: `(defs "Root" ("Root" (struct (field "tz" (oneOfScalars (const (s "utc")) (string - - false)) false false (s "browser")) (field "n" (oneOfScalars (const (n "0")) (int 64 true - -)) true false (n "3")) (field "tl" (oneOfScalars (string - - false) (const (s "utc"))) true false (s "x")))))`},
 	{ID: "imported-types-reused", Degrade: 1, Formats: []string{"cue"}, CueLib: true, Src: `(defs "Root" ("Root" (struct (field "sort" (ref "SortOrder") true false (s "asc")) (field "legend" (ref "LegendOptions") true false (o ("placement" (s "right")))) (field "tooltipSort" (ref "SortOrder") true false (s "desc")) (field "tooltipLegend" (ref "LegendOptions") false false (o ("placement" (s "top")) ("showLegend" false))) (field "thirdSort" (ref "SortOrder") false false (s "none")))) ("SortOrder" (enumS "asc" "desc" "none")) ("LegendOptions" (struct (field "placement" (string - - false) false false (s "bottom")) (field "showLegend" (bool) false false true) (field "width" (int 64 true - -) false false (n "120")))))`},
